@@ -270,8 +270,10 @@ Lemma decode_nonempty data : data <> [] ->
   decode data = decode_from (nlen data) (hd0 data, tl data).
 Proof. destruct data; [contradiction|reflexivity]. Qed.
 
-Theorem entry_roundtrip_proved e :
-  wf_entry e -> decode (encode e) = DecOk e (nlen (encode e)).
+Lemma entry_roundtrip_general e :
+  wf_entry0 e ->
+  decode (encode e) =
+  if nlen (encode e) <? colfer_size_max then DecOk e (nlen (encode e)) else DecMax.
 Proof.
   intros (Ht & Hi & Hty & Hk & Hc & Hs & Hr & Hcb & Hcl).
   destruct e as [term index ty key client series resp cmd]; simpl in *.
@@ -314,8 +316,9 @@ Proof.
   rewrite V0, V1, V2, V3, V4, V5, V6.
   destruct (dec_field_cmd_enc cmd Hcl) as [(Ec & Ed & Ef)|Ed]; fold S7 in Ed; rewrite Ed.
   - subst cmd. unfold S7 at 1 2. rewrite Ef. cbn [app hd0 hd tl].
-    rewrite N.eqb_refl. f_equal. unfold nlen; simpl; lia.
-  - rewrite N.eqb_refl. f_equal. unfold nlen; simpl; lia.
+    rewrite N.eqb_refl. change (tl S7) with (@nil N).
+    change (nlen (@nil N)) with 0. rewrite N.sub_0_r. reflexivity.
+  - rewrite N.eqb_refl. change (nlen (@nil N)) with 0. rewrite N.sub_0_r. reflexivity.
 Qed.
 
 (* ------------------------------------------------------------------ *)
@@ -370,6 +373,52 @@ Proof.
   unfold nlen at 1. simpl length. lia.
 Qed.
 
+Theorem entry_roundtrip_proved e :
+  wf_entry e -> decode (encode e) = DecOk e (nlen (encode e)).
+Proof.
+  intros [H0 Hsz]. rewrite entry_roundtrip_general by exact H0.
+  rewrite entry_size_exact_proved. apply N.ltb_lt in Hsz. rewrite Hsz. reflexivity.
+Qed.
+
+(* at and above the limit the encoding is NOT accepted back (unmarshal wants
+   i < ColferSizeMax): the round-trip law holds exactly for sizes below the limit *)
+Lemma entry_at_limit_rejected_proved e :
+  wf_entry0 e -> colfer_size_max <= size e -> decode (encode e) = DecMax.
+Proof.
+  intros H0 Hsz. rewrite entry_roundtrip_general by exact H0.
+  rewrite entry_size_exact_proved. apply N.ltb_ge in Hsz. rewrite Hsz. reflexivity.
+Qed.
+
+(* the length-abstract functions used for the BIG harness cases *)
+Lemma size_cmd_len_eq c : size_cmd c = size_cmd_len (nlen c).
+Proof. unfold size_cmd, size_cmd_len. destruct c; [reflexivity|]. rewrite nlen_cons.
+  destruct (N.eqb_spec (1 + nlen c) 0); [lia|reflexivity]. Qed.
+
+Lemma size_len_eq e : size e = size_len e (nlen (e_cmd e)).
+Proof. unfold size, size_len. rewrite size_cmd_len_eq. reflexivity. Qed.
+
+Lemma size_checked_len_eq e : size_checked e = size_checked_len e (nlen (e_cmd e)).
+Proof. unfold size_checked, size_checked_len. rewrite <- size_len_eq. reflexivity. Qed.
+
+Lemma encode_head_split e : e_cmd e <> [] ->
+  encode e = encode_head e (nlen (e_cmd e)) ++ e_cmd e ++ [127].
+Proof.
+  intros H. unfold encode, encode_head. rewrite field_cmd_nonempty by exact H.
+  rewrite <- !app_assoc. cbn [app]. rewrite <- !app_assoc. reflexivity.
+Qed.
+
+Lemma decode_outcome_len_eq e : wf_entry0 e ->
+  decode (encode e) =
+  match decode_outcome_len e (nlen (e_cmd e)) with
+  | Some n => DecOk e n
+  | None => DecMax
+  end.
+Proof.
+  intros H0. rewrite entry_roundtrip_general by exact H0.
+  unfold decode_outcome_len. rewrite entry_size_exact_proved, <- size_len_eq.
+  destruct (size e <? colfer_size_max); reflexivity.
+Qed.
+
 Lemma varint_extra_le x k : x < 128 ^ N.of_nat (S k) -> varint_extra 9 x <= N.of_nat k.
 Proof. intros H. rewrite varint_extra_nat. pose proof (varint_extra'_bound 9 x k H). lia. Qed.
 
@@ -402,7 +451,7 @@ Qed.
 Theorem entry_size_le_upper_limit_proved e :
   wf_entry e -> nlen (encode e) <= size_upper_limit e.
 Proof.
-  intros (_ & _ & Hty & _ & _ & _ & _ & _ & Hcl).
+  intros [(_ & _ & Hty & _ & _ & _ & _ & _ & Hcl) _].
   rewrite entry_size_exact_proved. unfold size, size_upper_limit.
   pose proof non_cmd_fields_enough.
   pose proof (size64_le (e_term e)). pose proof (size64_le (e_index e)).
@@ -413,7 +462,7 @@ Qed.
 
 Theorem encode_wf_bytes_proved e : wf_entry e -> wf_bytes (encode e).
 Proof.
-  intros (Ht & Hi & Hty & Hk & Hc & Hs & Hr & Hcb & Hcl).
+  intros [(Ht & Hi & Hty & Hk & Hc & Hs & Hr & Hcb & Hcl) _].
   assert (F64 : forall tag x, tag < 127 -> wf_bytes (field64 tag x)).
   { intros tag x Htag. unfold field64.
     destruct (colfer_fixed_threshold_marshal <=? x).
